@@ -18,6 +18,7 @@ ramchip char rc; ramchip short rs; ramchip char ra[4]; ramchip char *rp; ramchip
 bank1 char bc; bank1 short bs; bank1 char ba[4];
 const char ct[4] = {1, 2, 3, 4}; const short cst[2] = {1, 2}; const signed char csc[2] = {1, 2};
 char *const HW = 0x10; char *const HWB = 0x280; char *const HWE = 0xfe; char *const HWF = 0xff; char *const HWG = 0x100; char *const HWH = 0x101; char *const HW0 = 0;
+char *const HWQ = HWF; char *const HWR = HWE + 1; char *const HWS = HWB + 4; char *const HWT = HWQ; char *const HWU = za;
 const char k8 = 7;
 void main() { zc = 1; }
 '''
@@ -44,13 +45,35 @@ def memclass(m):
     return 'Other'
 
 
-def const_addr(v):
-    """the address of a constant-address object (a const pointer defined by an integer), '-' otherwise:
-    v_addr of Model/AsmSel.v"""
+def const_value(v, byname, depth=0):
+    """CompilerState::constant_address: a literal value, or the low / high byte of another constant's known
+    value plus an offset; None when the compiler does not know it"""
     d = v.get('def')
-    if v['type'] == 'CharPtr' and v['const'] and d is not None and d[0] == 'value' and isinstance(d[1], int):
-        return str(d[1])
-    return '-'
+    if not v['const'] or d is None or d[0] != 'value' or depth > 16:
+        return None
+    if isinstance(d[1], int):
+        return d[1]
+    kind, name, off = d[1]
+    b = byname.get(name)
+    a = const_value(b, byname, depth + 1) if b is not None else None
+    if a is None:
+        return None
+    a = wrap32(a + off)
+    return (a & 0xff) if kind == 'lo' else ((a >> 8) & 0xff)
+
+
+def wrap32(x):
+    x &= 0xffffffff
+    return x - (1 << 32) if x >= (1 << 31) else x
+
+
+def const_addr(v, vars_=None):
+    """the address of a constant-address object (a const pointer defined by an integer, or from another constant
+    whose value is known), '-' otherwise: v_addr of Model/AsmSel.v"""
+    if v['type'] != 'CharPtr':
+        return '-'
+    a = const_value(v, {x['name']: x for x in (vars_ or [v])})
+    return '-' if a is None else str(a)
 
 
 def var_wf_problems(vars_):
@@ -58,7 +81,7 @@ def var_wf_problems(vars_):
     classified Zeropage exactly when it lies in page zero"""
     bad = []
     for v in vars_:
-        a = const_addr(v)
+        a = const_addr(v, vars_)
         if a != '-':
             a = int(a)
             if a < 0 or (v['memory'] == 'Zeropage') != (a < 256):
@@ -119,7 +142,7 @@ def run_domain(schemes=('4K', '3E', '3EP')):
             if v is None:
                 rec = ['Char', '0', '0', 'Zeropage', '1', '-']
             else:
-                rec = [v['type'], '1' if v['const'] else '0', '1' if v['signed'] else '0', memclass(v['memory']), str(v['size']), const_addr(v)]
+                rec = [v['type'], '1' if v['const'] else '0', '1' if v['signed'] else '0', memclass(v['memory']), str(v['size']), const_addr(v, vars_)]
             mtext.append('probe %d %s %s %s %s %s %d %d %d %s %d' % (k, mn, kind, hx(name), ' '.join(rec[:1]), ' '.join(rec[1:]), eb, n, high, s, prot))
         model = run_sel('\n'.join(mtext) + '\n')
         for k, (p, ri) in enumerate(zip(probes, impl['probes'])):
